@@ -15,7 +15,9 @@ SHARDS = {'quick': 16, 'thorough': 64}
 TIMEOUT = {'quick': 1500, 'thorough': 7200}
 MUST_HIT = ['Interp.compared', 'Interp.return-value', 'Interp.final-state', 'Feature.loop',
             'Feature.where', 'Feature.relate', 'Feature.foreach', 'Feature.while', 'Feature.delete',
-            'Feature.select_related', 'Feature.return', 'Feature.break-continue', 'Feature.elif']
+            'Feature.select_related', 'Feature.return', 'Feature.break-continue', 'Feature.elif',
+            'Selection.select-related-where-first-fails-later-matches',
+            'Selection.select-from-where-first-fails-later-matches']
 MUST_REACH = ['bridgepoint/interpret.py:run_function', 'bridgepoint/interpret.py:ActionWalker.accept_WhileNode',
               'bridgepoint/interpret.py:ActionWalker.accept_ForEachNode',
               'bridgepoint/interpret.py:ActionWalker.accept_SelectFromWhereNode',
@@ -81,10 +83,11 @@ def populate(rng, sch, bound):
     '''random initial population through the API, mirrored in the shadow'''
     import xtuml
     handles = {}
+    big = rng.random() < 0.35
     for kind, attrs in sch.classes:
         ref = set(a.upper() for a in sch.referential(kind))
         handles[kind] = []
-        for _ in range(rng.randint(0, 3)):
+        for _ in range(rng.randint(0, 3) if not big else rng.randint(2, 6)):
             vals = {}
             for a, ty in attrs:
                 if a.upper() in ref or ty == UID:
@@ -93,7 +96,7 @@ def populate(rng, sch, bound):
                            'BOOLEAN': rng.random() < 0.5}[ty]
             handles[kind].append(bound.new(kind, **vals))
     sh = bound.shadow
-    for _ in range(rng.randint(0, 8)):
+    for _ in range(rng.randint(0, 8) if not big else rng.randint(6, 30)):
         r = rng.choice(sch.rops)
         if not handles[r.src] or not handles[r.tgt]:
             continue
@@ -227,6 +230,8 @@ def run_case(ctx, rng, case_policy='lower', layout='canonical'):
     f = features_of(stmts)
     for x in f:
         ctx.hit('Feature.' + x)
+    for x, n in clean.events.items():
+        ctx.hit('Selection.' + x, n)
     nontrivial = 'loop' in f and 'where' in f and 'relate' in f and len(stmts) >= 8
     ctx.case((pop_desc, text), nontrivial, sample=dict(program=text, returns=exp_ret))
     ctx.count('programs')
